@@ -36,11 +36,15 @@ type C15Conn struct {
 type C15Case struct {
 	Keys  []kit.KeySpec `json:"keys"`
 	Conns []C15Conn     `json:"conns"`
+	// SearchSinkUs: the sink of the cipher-search metric takes this long per report (a slow metrics backend):
+	// connections are then parked between their key search and the rest of the handshake while others come in
+	SearchSinkUs int `json:"search_sink_us,omitempty"`
 }
 
 func genC15(maxConns int) func(t *rapid.T) C15Case {
 	return func(t *rapid.T) C15Case {
 		c := C15Case{Keys: kit.GenKeyUniverse(t, 1, 6)}
+		c.SearchSinkUs = rapid.SampledFrom([]int{0, 0, 300, 3000}).Draw(t, "sink")
 		n := rapid.IntRange(1, maxConns).Draw(t, "nconns")
 		for i := 0; i < n; i++ {
 			c.Conns = append(c.Conns, C15Conn{
@@ -323,7 +327,8 @@ func runC15(c C15Case, info *kit.Info) *kit.Finding {
 		rc := service.NewReplayCache(1000)
 		cache = &rc
 	}
-	h := service.NewStreamHandler(service.NewShadowsocksStreamAuthenticator(kit.NewCipherList(c.Keys), cache, nil, nil), 5*time.Second)
+	sink := &kit.RecSSMetrics{Delay: time.Duration(c.SearchSinkUs) * time.Microsecond}
+	h := service.NewStreamHandler(service.NewShadowsocksStreamAuthenticator(kit.NewCipherList(c.Keys), cache, sink, nil), 5*time.Second)
 	h.SetTargetDialer(kit.PermissiveDialer)
 	front, err := kit.ServeTCP("127.0.0.1", func(ctx context.Context, conn transport.StreamConn) {
 		h.Handle(ctx, conn, met.AddOpenTCPConnection(conn))
